@@ -216,6 +216,8 @@ func runScript(out *TraceWriter, path string, from, runs int) {
 				c.Emit(n.Start())
 			case "Reset":
 				c.Emit(n.Reset())
+			case "Restart": // the process restarts: a fresh DBFT object over the same ledger
+				c.Emit(n.Restart())
 			case "OnReceive":
 				var r PRec
 				if err := json.Unmarshal(e.Arg, &r); err != nil {
